@@ -297,7 +297,7 @@ def parts_clauses(c, parts, J, t_old_snap, n, fields):
 
 
 class _Split(_TrajMethod):
-    props = ["C11", "C16"]
+    props = ["C11"]
     modes = ("poses", )
     fields = ("_poses_se3", "timestamps")
 
@@ -320,12 +320,15 @@ class _Split(_TrajMethod):
                     same.append(ln == n0)
                     same.append(c.forall(n0, lambda k, get=get, cell0=cell0: c.eq(get(k), cell0(k))))
                 yield Clause("the_single_part_reproduces_the_trajectory", c.And(*same), role="prop")
-                yield Clause("the_single_part_is_an_independent_object", p0 is not t and all(
+                yield Clause("the_single_part_is_an_independent_object", p0 is not t and not tm.shares_storage(p0, t) and all(
                     p0.__dict__.get(f) is not t.__dict__.get(f) for f in self.fields if f in t.__dict__), role="prop",
                     props=["C11", "C16"])
             return
         for lab, cond in parts_clauses(c, res, J, old.self, old.n, self.fields):
             yield Clause(lab, cond, role="prop")
+        pk = sym.as_seq(res).get(c.int("i_part"))
+        yield Clause("parts_own_their_pose_matrices", hasattr(pk, "__dict__") and not tm.shares_storage(pk, t), role="prop",
+                     props=["C16"], note="no part holds the trajectory's own matrix objects (project() rewrites them in place)")
         for lab, cond in boundaries_clauses(c, J, old.n, self._exceeds(c, a, old)):
             yield Clause(lab, cond, role="prop")
 
@@ -415,7 +418,7 @@ class split_speed_outliers(_Split):
 @register
 class merge(FnContract):
     name = T + "merge"
-    props = ["C11", "C16"]
+    props = ["C11"]
 
     def cases(self):
         return [{"count": 1}, {"count": 2}, {"count": 3}]
@@ -516,7 +519,7 @@ def views_consistent(c, t):
 @register
 class transform(_TrajMethod):
     name = T + "PosePath3D.transform"
-    props = ["C08", "C04", "C15", "C16"]
+    props = ["C08", "C04", "C15"]
     modes = ("poses", )
     stamps = False
     wf = True
@@ -576,7 +579,7 @@ class transform(_TrajMethod):
 @register
 class scale(_TrajMethod):
     name = T + "PosePath3D.scale"
-    props = ["C08", "C04", "C16"]
+    props = ["C08", "C04"]
     modes = ("poses", "xyzquat", "all")
     stamps = False
 
@@ -616,7 +619,7 @@ class scale(_TrajMethod):
 @register
 class align_origin(_TrajMethod):
     name = T + "PosePath3D.align_origin"
-    props = ["C04", "C08", "C16"]
+    props = ["C04", "C08"]
     modes = ("poses", )
     stamps = False
     wf = True
@@ -649,7 +652,7 @@ class align_origin(_TrajMethod):
 @register
 class align(_TrajMethod):
     name = T + "PosePath3D.align"
-    props = ["C04", "C16"]
+    props = ["C04"]
     modes = ("poses", )
     stamps = False
     wf = True
@@ -758,7 +761,7 @@ def projected_pose_ok(c, new, old, a):
 @register
 class project(_TrajMethod):
     name = T + "PosePath3D.project"
-    props = ["C14", "C08", "C16"]
+    props = ["C14", "C08"]
     modes = ("poses", "all")
     stamps = True
     wf = True
@@ -785,7 +788,7 @@ class project(_TrajMethod):
         yield Clause("every_pose_projected_into_the_plane", c.forall(n, lambda k: projected_pose_ok(c, pg(k), og(k), ax)),
                      role="prop", note="zero out-of-plane coordinate, in-plane coordinates unchanged, pure rotation about the normal")
         yield Clause("timestamps_unchanged", v["timestamps"][2] is old.self["timestamps"][2] and
-                     v["timestamps"][2]._cell[0] is old.self["timestamps"][1], role="prop")
+                     v["timestamps"][2]._cell[0] is old.self["timestamps"][1], role="prop", props=["C14", "C08", "C16"])
         yield Clause("cached_views_flushed", "_positions_xyz" not in v and "_orientations_quat_wxyz" not in v, role="prop",
                      props=["C14", "C08"], note="positions / quaternions are regenerated from the projected matrices on demand")
         yield Clause("marked_as_projected", t._projected is True, role="prop")
